@@ -7,6 +7,14 @@ import importlib
 
 CLAIMED = {
  # id: (technique, level_note, design_ref)
+ 'C19': ('line algebra (symbolic count of print statements with loop trip counts as polynomial atoms), writer/reader line-order table comparison, source-agreement and format lints',
+         'Decides: declared header-line, variable and comment counts equal the emitted ones for every attribute/variable set; k-th written line is what the reader reads at '
+         'line k; declared missing code = fill of masked cells; %.6e from a float64 matrix; reader masks by exact equality. Not decided: seven-digit value equality, '
+         'idempotence of a second cycle, attribute values containing newlines.', '4/C19'),
+ 'C20': ('constant/width agreement between pack2d and unpack, finite case analysis of the exponent rounding over sign/integrality classes, width algebra writer/reader/length formula, shape agreement of the layer-key table',
+         'Decides: encoder and decoder share exponent bias, byte offset and float32 working precision; stored exponent is strictly above log2(max difference) in all five '
+         'classes; index-record widths and header field formats agree; elapsed hours from total_seconds. Reports that the ARL writer cannot run (known finding). Not decided: '
+         'the quantisation error bound, checksum value.', '4/C20'),
  'C10': ('override resolution along the statically computed MRO + DIRTY/SYNCED typestate walk (path walker, parameter defaults / literal call arguments, memoised summaries) + table checks on updatemeta',
          'Decides: every public file-returning operation resolved for receiver ioapi_base returns after updatemeta() on all paths; copy contract; the four encodings of '
          'the variable count are each reconciled under a test of themselves; count attributes set from dimensions; level-edge guard is a tautology. Operations still '
